@@ -10,3 +10,7 @@ package helpers
 //@ requires h.moot != nil
 //@ ensures put: h.helpers != nil && has(h.helpers, key) && h.helpers[key] == helper
 //@ assigns h.helpers, contents(h.helpers), fresh
+
+//@ func NewMap
+//@ ensures shape: result.helpers == helpers && result.moot != nil
+//@ assigns fresh
